@@ -59,9 +59,9 @@ QUICK_A = [
     [("oprobe", "const")], [("oprobe", "plus")], [("oprobe", "cond")], [("oprobe", "ctx")],
     [("oprobe", "const"), ("probe", None)], [("probe", None), ("oprobe", "plus")],
     [("oprobe", "const"), ("oprobe", "plus")], [("oprobe", "plus"), ("oprobe", "cond")],
-    [("oprobe", "cond"), ("oprobe", "const")], [("probe", None), ("tweak", "const")],
+    [("probe", None), ("tweak", "const")],
     [("rewrite", "plus"), ("probe", None)], [("oprobe", "const"), ("rewrite", "ctx")],
-    [("tweak", "const"), ("oprobe", "cond")], [("oprobe", "cond"), ("probe", None)],
+    [("tweak", "const"), ("oprobe", "cond")],
 ]
 QUICK_B = [
     [("tweak", "const")], [("tweak2", "const")], [("rewrite", "plus")], [("rewrite", "ctx")],
